@@ -5,13 +5,25 @@ import props
 EXTRA_CONFIGS = ["default", "nodefault", "nightly"]
 
 
+def prefetch():
+    """Extract the facts of the extra configurations concurrently (each is one `cargo check`)."""
+    import concurrent.futures as cf
+    import facts as factsmod
+    with cf.ThreadPoolExecutor(len(EXTRA_CONFIGS)) as ex:
+        list(ex.map(lambda c: factsmod.extract(c), EXTRA_CONFIGS))
+
+
 def extra(pid, rule_names):
     res = []
+    prefetch()
+    import rules_witness as RW
+    if any(pid in ps for ps in RW.WITNESS_PROPS.values()):
+        res.append(RW.rule_witness(pid))
     for cfg in EXTRA_CONFIGS:
         rs = props.eval_rules(rule_names, cfg, pid)
         for r in rs:
             r.rule = "%s@%s" % (r.rule, cfg)
             for v in r.violations:
-                v.instance = "%s [config %s]" % (v.instance, cfg)
+                v.detail = "[feature configuration `%s`] %s" % (cfg, v.detail)
         res.extend(rs)
     return res
